@@ -798,6 +798,11 @@ fn fail_all_pending(inner: &std::sync::Weak<ClientInner>, err: RepeError) {
         return;
     };
 
+    // Fail the calls already in flight before touching the writer: its lock
+    // may be held by another caller's write that a stalled peer never lets
+    // finish, and those waiters must not hang behind it.
+    fail_waiters(&inner_ref, &err);
+
     {
         let writer = match inner_ref.writer.lock() {
             Ok(guard) => guard,
@@ -806,8 +811,14 @@ fn fail_all_pending(inner: &std::sync::Weak<ClientInner>, err: RepeError) {
         let _ = writer.get_ref().shutdown(Shutdown::Both);
     }
 
+    // A call registered meanwhile wrote before the shutdown and would wait
+    // for a reader that is gone.
+    fail_waiters(&inner_ref, &err);
+}
+
+fn fail_waiters(inner: &ClientInner, err: &RepeError) {
     let waiters = {
-        let mut map = match inner_ref.pending.lock() {
+        let mut map = match inner.pending.lock() {
             Ok(guard) => guard,
             Err(poisoned) => poisoned.into_inner(),
         };
@@ -815,7 +826,7 @@ fn fail_all_pending(inner: &std::sync::Weak<ClientInner>, err: RepeError) {
     };
 
     for (request_id, sender) in waiters {
-        let _ = sender.send(Err(clone_fatal_error_for_waiter(&err, request_id)));
+        let _ = sender.send(Err(clone_fatal_error_for_waiter(err, request_id)));
     }
 }
 
